@@ -58,6 +58,9 @@ type Chain struct {
 	valSet  *tmtypes.ValidatorSet
 }
 
+// genesisExtraCoins, when set, is added to every funded genesis account (multi-denom streams).
+var genesisExtraCoins sdk.Coins
+
 var configDone bool
 
 func setConfigOnce() {
@@ -97,7 +100,8 @@ func NewChain(db dbm.DB, home string, accts []*Acct, balance int64, overrides ma
 	for _, ac := range accts {
 		genAccs = append(genAccs, authtypes.NewBaseAccount(ac.Addr, nil, 0, 0))
 		if balance > 0 {
-			bals = append(bals, banktypes.Balance{Address: ac.Bech(), Coins: sdk.NewCoins(sdk.NewInt64Coin(feeDenom, balance))})
+			coins := sdk.NewCoins(sdk.NewInt64Coin(feeDenom, balance)).Add(genesisExtraCoins...)
+			bals = append(bals, banktypes.Balance{Address: ac.Bech(), Coins: coins})
 		}
 	}
 	gs := a.DefaultGenesis()
